@@ -105,7 +105,7 @@ impl Property for C05 {
             .boxed()
     }
     fn quota(tier: Tier) -> u64 {
-        tier.pick(400_000, 8_000_000)
+        tier.pick(4_000_000, 60_000_000)
     }
     fn rule() -> String {
         "Valid polygons / multipolygons (polyomino outlines with holes, hulls, star rings, integer-matrix images) with the direction \
